@@ -5,7 +5,8 @@
                                MAnyFn, MFunc, MRoot, MAttr, MAny, MAnyWP (shares MAny's case), MImm
      imm_excluded              step_ok (child): negb is_attr && negb is_root
      any_document_excluded_for body MAny tests negb is_root, body MAnyWP does not
-     root_walk_up_after        body MRoot: head_is_any (is_any = MAny | MAnyWP)
+     root_walk_up_after        body MRoot: root_retry when the next step is MAny | MAnyWP (re-test on the
+                               top-level ancestor: GenPat.root_retests_previous_step)
      name_test_attribute_axes  one attr_test for the matcher and for the re-run
      step_ops / head_ops       compile_steps / compile *)
 From Coq Require Import List String.
